@@ -125,22 +125,26 @@ Definition bounds_T (go : grid_opts) (N : nat) (Tvar : bool) (T : F) (Tl t0l : l
   let lT := loc_T go in
   match gs with
   | GUniform =>
-      match fixedr with
-      | [] => []
-      | r :: rest =>
-          r :: (if Nat.eqb k 0 then
-                  if lT then (if Tvar then minmax_rows go 0 (nth 0 Tl o0) else [])
-                  else match go_min go, go_max go with
-                       | None, None => []
-                       | _, _ => if Tvar then minmax_rows go 0 (T /! of_nat N) else []
-                       end
-                else []) ++ rest
-      end
-  | GGeometric _ _ =>
       (if Nat.eqb k 0 then
          if lT then (if Tvar then minmax_rows go 0 (nth 0 Tl o0) else [])
-         else (if Tvar then minmax_rows go 0 (T *! nth 1 (normalized gs N) o0) else [])
+         else match go_min go, go_max go with
+              | None, None => []
+              | _, _ => if Tvar then minmax_rows go 0 (T /! of_nat N) else []
+              end
        else []) ++ fixedr
+  | GGeometric _ _ =>
+      let nrm := normalized gs N in
+      (if lT then
+         (if Nat.eqb k 0 || Nat.eqb k (N - 1)
+          then (if Tvar || negb (Nat.eqb k 0) then minmax_rows go (Z.of_nat k) (nth k Tl o0) else [])
+          else [])
+       else
+         (if Nat.eqb k 0 then (if Tvar then minmax_rows go 0 (T *! nth 1 nrm o0) else []) else [])
+         ++ (if Nat.eqb k (N - 1) && Nat.ltb 1 N
+             then (if Tvar then minmax_rows go (Z.of_nat k)
+                                   (T *! (pygetd o0 nrm (-1) -! pygetd o0 nrm (-2))) else [])
+             else []))
+      ++ fixedr
   | GFree => minmax_rows go (Z.of_nat k) (nth k Tl o0) ++ fixedr
   | GNodes _ => fixedr
   end.
